@@ -27,6 +27,7 @@ FAMILIES = {
     "CAP": (4, 120, 4, 260, 5),
     "U8": (2, 120, 3, 260, 4),
     "BIG": (1, 300, 4, 1600, 5),
+    "OP": (4, 120, 4, 260, 5),
 }
 UNIVERSE_SHARDS = 4
 
@@ -424,9 +425,33 @@ def lazydfa_stages(tier):
                             workers=2, expect_violation=True)]
 
 
+def onepass_jobs(tier):
+    """MC_OnePass generator jobs (model verdict + model search result per haystack -> real Build / Search)."""
+    q = tier == "quick"
+    s = vlib.seed()
+    jobs = []
+    for fam, nsh in (("OP", 4), ("CAP", 4), ("ANC", 4)):
+        for sh in ([s % 4] if q else range(4)):
+            jobs.append((fam, {"Family": fam, "Shard": sh, "NShards": nsh, "Budget": 60 if q else 120, "LCap": 3 if q else 4,
+                               "Guards": {"prio", "look"}, "Merge": "first"}, "MC_OnePass", "onepass"))
+    return jobs
+
+
+def onepass_stages(tier):
+    cfg = "SPECIFICATION Spec\nINVARIANT Exact\n"
+    base = {"Shard": 1, "NShards": 8, "Budget": 60, "LCap": 3}
+    # negative controls: each guard of the construction is needed, and merging slots of two paths is wrong
+    return [tlc_model_stage("OnePass_union_control", "MC_OnePass", dict(base, Family="OP", Guards={"prio", "look"}, Merge="union"), cfg,
+                            workers=2, expect_violation=True),
+            tlc_model_stage("OnePass_noprio_control", "MC_OnePass", dict(base, Family="OP", Guards={"look"}, Merge="first"), cfg,
+                            workers=2, expect_violation=True),
+            tlc_model_stage("OnePass_nolook_control", "MC_OnePass", dict(base, Family="ANC", Guards={"prio"}, Merge="first"), cfg,
+                            workers=2, expect_violation=True)]
+
+
 def c14(prop, tier):
     return run_search_family(prop, tier, prop, subcmd="engines", with_at=True, budget_scale=0.5 if tier == "quick" else 0.6,
-                             stages=lazydfa_stages(tier),
+                             stages=lazydfa_stages(tier) + onepass_stages(tier), extra_jobs=onepass_jobs(tier),
                              rule="TLC enumerates pattern-family shards x haystacks x every start offset and evaluates, per offset, the "
                                   "leftmost-first and leftmost-longest match, the match anchored at the offset and the set of all match ends; "
                                   "each engine entry point (PikeVM x12, bounded backtracker, lazy DFA forward/anchored/earliest/reverse under 6 "
